@@ -1,8 +1,163 @@
-/- Driver handler of C03: protocol line (already split into tokens, without the leading "c03") -> answer. -/
+/-
+  Driver handler of C03: one line = one saved model (nodes, build order, user extra_data keys) + one post-load history.
+
+    c03 <n> <node>*n ORD <k> i*k EXTRA (none | <k> keytok*k) OPS <op>*
+      node : <sheettok> <col> <row> (- | <col2>:<row2>)  <spec>
+      spec : I <val>                      value cell with its value at save time
+           | F <codetok> <fml>            formula cell: python code + formula of Model/EngineInst.lean
+                                          (ref j | cat k j*k | add a b | sum k j*k | cnt k j*k | idx r row col)
+           | X <codetok>                  formula / CSE range whose semantics is not modelled (no history is sent)
+           | R <rows> <cols> j*(rows*cols) plain range
+      ORD  : the insertion order of the real cell_map (node numbers)
+      op   : S i <val> | E i
+  Answer, ';'-separated:
+      map:<i>=<tok>~…      the cell_map section of the file in file order (`serialize`), node number = entry
+      twice:0|1            the second save of the unchanged model writes the same document
+      idem:0|1             saving the loaded model writes the same entries in the same order
+      idemmap:0|1          … the same entries as a mapping
+      ops:<tok>^…          the history run on `loadedState` of the RELOADED model (`ok`/`rej` for set_value)
+  Trusted glue, not part of any theorem.
+-/
 import Pycel.Model.Proto
+import Pycel.Model.Persist
 namespace Pycel.Drv.C03
+open Pycel Pycel.Engine Pycel.EngineInst Pycel.Persist
+
+partial def takeNats : Nat → List String → Option (List Nat × List String)
+  | 0, ts => some ([], ts)
+  | k+1, t :: ts => do
+    let j ← t.toNat?
+    let (js, rest) ← takeNats k ts
+    some (j :: js, rest)
+  | _, [] => none
+
+def decStr? (tok : String) : Option (List Char) :=
+  if tok.startsWith "s:" then decText? (tok.drop 2).toString else none
+
+def parseExt (t : String) : Option (Option (Nat × Nat)) :=
+  if t = "-" then some none else
+  match t.splitOn ":" with
+  | [a, b] => do some (some ((← a.toNat?), (← b.toNat?)))
+  | _ => none
+
+def parseFml : List String → Option (Fml × List String)
+  | "ref" :: j :: rest => do some (.ref (← j.toNat?), rest)
+  | "add" :: a :: b :: rest => do some (.add (← a.toNat?) (← b.toNat?), rest)
+  | "idx" :: r :: row :: col :: rest => do some (.idx (← r.toNat?) (← row.toNat?) (← col.toNat?), rest)
+  | "cat" :: k :: rest => do
+      let (js, rest) ← takeNats (← k.toNat?) rest
+      some (.cat js, rest)
+  | "sum" :: k :: rest => do
+      let (js, rest) ← takeNats (← k.toNat?) rest
+      some (.sum js, rest)
+  | "cnt" :: k :: rest => do
+      let (js, rest) ← takeNats (← k.toNat?) rest
+      some (.cnt js, rest)
+  | _ => none
+
+partial def parseNodes : Nat → List String → Option (List Node × List String)
+  | 0, ts => some ([], ts)
+  | k+1, sh :: col :: row :: ext :: ts => do
+    let key : Key := ⟨← decStr? sh, ← col.toNat?, ← row.toNat?, ← parseExt ext⟩
+    let (nd, rest) ← (match ts with
+      | "I" :: v :: rest => do some (({ key := key, spec := .inp (← Val.dec? v), code := [] } : Node), rest)
+      | "F" :: code :: rest => do
+          let (e, rest) ← parseFml rest
+          some ({ key := key, spec := .fml e, code := ← decStr? code }, rest)
+      | "X" :: code :: rest => do some ({ key := key, spec := .fml (.cnt []), code := ← decStr? code }, rest)
+      | "R" :: r :: c :: rest => do
+          let r ← r.toNat?
+          let c ← c.toNat?
+          let (js, rest) ← takeNats (r*c) rest
+          some ({ key := key, spec := .rng (chunk c r js), code := [] }, rest)
+      | _ => none : Option (Node × List String))
+    let (nds, rest) ← parseNodes k rest
+    some (nd :: nds, rest)
+  | _, _ => none
+
+partial def parseOps : List String → Option (List (Op EV))
+  | [] => some []
+  | "S" :: i :: v :: rest => do
+    let ops ← parseOps rest
+    some (.set (← i.toNat?) (.sc (← Val.dec? v)) :: ops)
+  | "E" :: a :: rest => do
+    let ops ← parseOps rest
+    some (.eval (← a.toNat?) :: ops)
+  | _ => none
+
+def encEV : EV → String
+  | .sc v => v.enc
+  | .arr rows => encArr rows
+
+def runOps (wb : Workbook) (f : Nat → (Nat → EV) → EV) : State EV → List (Op EV) → List String
+  | _, [] => []
+  | s, .set i v :: h =>
+    let ok := decide (i < wb.n) && decide (wb.kind i = .input) && s.built i
+    (if ok then "ok" else "rej") :: runOps wb f (setValue wb typedEq i v s) h
+  | s, .eval a :: h =>
+    let r := evaluate wb f a s
+    (if a < wb.n then encEV r.1 else "!unknown-node") :: runOps wb f r.2 h
+
+def indexOfKey (nodes : List Node) (k : Key) : Nat :=
+  (nodes.findIdx? fun nd => nd.key == k).getD nodes.length
+
+def curVal (nd : Node) : Val :=
+  match nd.spec with
+  | .inp v => v
+  | _ => .blank
+
+def emb0 : Emb Nat := ⟨fun _ => 0, fun _ => 0, fun _ => 0⟩
+
+def boolTok (b : Bool) : String := if b then "1" else "0"
+
+def answer (nodes : List Node) (order : List Nat) (extra : Option (List (List Char))) (ops : List (Op EV)) : String :=
+  let cells := order.map fun i => let nd := nodes.getD i default; entryOf nd (curVal nd)
+  let m : Model Nat :=
+    { cells := cells, cycles := none, hash := none, filename := [], extra := extra.map fun ks => ks.map fun k => (k, 0) }
+  let ser := serialize m.cells
+  let rebuilt := (nodes.filter fun nd => match nd.spec with | .rng _ => true | _ => false).map (·.key)
+  let R := reload Codec.id emb0 [] rebuilt m
+  let ser' := serialize R.cells
+  let mapS := "~".intercalate (ser.map fun kv => s!"{indexOfKey nodes kv.1}={kv.2.enc}")
+  let m2 := afterSave emb0 m
+  let twice := docKeys (toDoc Codec.id m) == docKeys (toDoc Codec.id m2) && serialize m2.cells == ser
+  let idem := ser' == ser
+  let idemmap := ser'.length == ser.length && ser.all fun kv => find kv.1 ser' == some kv.2
+  let V := tableView nodes
+  let cm := fun k => findEntry k R.cells
+  let opsS :=
+    if ops.isEmpty then "-"
+    else if !wfViewCheck V cm then "!notwf"
+    else "^".intercalate (runOps (wbOf V cm) (semOf V cm) (loadedState V R) ops)
+  s!"map:{mapS};twice:{boolTok twice};idem:{boolTok idem};idemmap:{boolTok idemmap};ops:{opsS}"
 
 def handle : List String → String
+  | "c03" :: n :: rest =>
+    match n.toNat? with
+    | none => "!bad-n"
+    | some n =>
+      match parseNodes n rest with
+      | none => "!bad-node"
+      | some (nodes, "ORD" :: k :: rest) =>
+        match k.toNat? >>= fun k => takeNats k rest with
+        | none => "!bad-ord"
+        | some (order, "EXTRA" :: "none" :: "OPS" :: rest) =>
+          match parseOps rest with
+          | none => "!bad-op"
+          | some ops => answer nodes order none ops
+        | some (order, "EXTRA" :: k :: rest) =>
+          match k.toNat? with
+          | none => "!bad-extra"
+          | some k =>
+            let keys := (rest.take k).filterMap decStr?
+            match rest.drop k with
+            | "OPS" :: rest =>
+              match parseOps rest with
+              | none => "!bad-op"
+              | some ops => if keys.length = k then answer nodes order (some keys) ops else "!bad-extra"
+            | _ => "!bad-extra"
+        | _ => "!bad-ord"
+      | _ => "!bad-node"
   | _ => "!bad-op"
 
 end Pycel.Drv.C03
